@@ -11,6 +11,7 @@ import (
 
 	"verif/engine/ev"
 	"verif/engine/vsched"
+	"verif/shim/vsync"
 )
 
 // An activity is one short real-code operation; Goroutine names the goroutine that runs it in the real
@@ -27,6 +28,11 @@ type group struct {
 	Setup func() any // fresh objects; must create everything BEFORE threads are registered
 	Acts  []activity
 	Done  func(env any) // teardown after the execution (stop daemons)
+	// Started/Stopped, when set, run inside the schedule on a main thread: Started before the two
+	// activities are spawned (it starts the component's real loops as service threads), Stopped after
+	// both returned (graceful stop, so the loops drain and exit under the scheduler too).
+	Started func(env any)
+	Stopped func(env any)
 }
 
 var groups []group
@@ -136,8 +142,22 @@ func runPairs(r *ev.Run, jobs []pairJob, si, sn, bound int) {
 		var env any
 		e := &vsched.Explorer{Bound: bound, MaxExecs: 20000, Setup: func() {
 			env = j.g.Setup()
-			vsched.Go(a.Name, func() { a.Run(env) })
-			vsched.Go(b.Name, func() { b.Run(env) })
+			if j.g.Started == nil {
+				vsched.Go(a.Name, func() { a.Run(env) })
+				vsched.Go(b.Name, func() { b.Run(env) })
+				return
+			}
+			vsched.Go("main", func() {
+				j.g.Started(env)
+				var wg vsync.WaitGroup
+				wg.Add(2)
+				vsched.Go(a.Name, func() { defer wg.Done(); a.Run(env) })
+				vsched.Go(b.Name, func() { defer wg.Done(); b.Run(env) })
+				wg.Wait()
+				if j.g.Stopped != nil {
+					j.g.Stopped(env)
+				}
+			})
 		}, Check: func(x *vsched.Exec) string {
 			if j.g.Done != nil {
 				j.g.Done(env)
